@@ -72,6 +72,7 @@ def execute(mod, scn):
     c = ctx()
     c.seam.reset_totals()
     boot.reset_state("score_analysis")  # every run starts from the library's state right after import
+    boot.reset_process_env()
     from . import model as _model
 
     _model.reset_run_state()
@@ -85,6 +86,12 @@ def execute(mod, scn):
     finally:
         signal.alarm(0)
     res.setdefault("violations", [])
+    if not scn.get("stat"):
+        from . import leak as _leak
+
+        extra = _leak.check_after_run(scn.get("property", ""))
+        if extra:
+            res["violations"] = list(res["violations"]) + extra
     res.setdefault("trace", [])
     res.setdefault("stats", {})
     res["digest"] = hashlib.sha256(
